@@ -456,7 +456,7 @@ func run(c *core.Ctx) {
 	// 1. the lock model
 	cfgs := []string{"MC_C17_quick.cfg", "MC_C17_handshake.cfg"}
 	if c.Thorough() {
-		cfgs = []string{"MC_C17_quick.cfg", "MC_C17_handshake.cfg", "MC_C17_cmd.cfg", "MC_C17_core.cfg"}
+		cfgs = []string{"MC_C17_quick.cfg", "MC_C17_handshake.cfg", "MC_C17_full.cfg", "MC_C17_cmd.cfg", "MC_C17_core.cfg"}
 	}
 	var mcwg sync.WaitGroup
 	mcwg.Add(1)
